@@ -87,7 +87,7 @@ func runC13(c *Ctx) error {
 				}
 			}
 			// declared-only lengths: the header alone, then the stream ends
-			for _, decl := range []uint64{1 << 31, 1<<63 - 1, 1 << 63, 1<<64 - 1, uint64(limit) + 1} {
+			for _, decl := range []uint64{1 << 31, 1<<32 + 5, 1<<32 + uint64(limit), 1<<40 + 1, 1<<63 - 1, 1 << 63, 1<<64 - 1, uint64(limit) + 1} {
 				var hdr [10]byte
 				hdr[0] = 0x82
 				hdr[1] = 127
